@@ -168,13 +168,20 @@ Definition is_mbox (o : out) : bool :=
   | _ => false
   end.
 
+(* the two probe services have a mailbox goroutine each: invocations are compared per service *)
+Definition oev_svc (e : oev) : N := match e with EInvoke _ _ s _ _ _ _ => s | _ => 0 end.
+Definition out_svc (o : out) : N := match o with ODeliver _ f => f_svc f | _ => 0 end.
+Definition inv_match (s : N) (m : list out) (inv : list oev) : bool :=
+  evs_match (filter (fun o => is_invoke o && (out_svc o =? s)) m) (filter (fun e => oev_svc e =? s) inv).
+
 Fixpoint steps_match (ms : list (list out)) (obs : list (list oev * list oev * list oev)) : bool :=
   match ms, obs with
   | [], [] => true
   | m :: ms', (es, mb, inv) :: obs' =>
       evs_match (filter (fun o => negb (is_deliver o) && negb (is_mbox o)) m) es
       && evs_match (filter is_mbox m) mb
-      && evs_match (filter is_invoke m) inv
+      && inv_match 1 m inv && inv_match 2 m inv
+      && Nat.eqb (List.length (filter is_invoke m)) (List.length inv)
       && steps_match ms' obs'
   | _, _ => false
   end.
